@@ -13,11 +13,16 @@ Run-time part (this file):
           - purity, Hilbert-Schmidt, fidelity shortcut, process fidelity on integer data;
           - hamming_*, total_variation_distance on dyadic distributions;
           - seed handling: histories of generator calls against the state-machine model.
-  'test'  - everything that needs a spectrum or a logarithm (entropies, trace distance, mixed
+  'test'  - harness/c18_defs.py: EVERY public measure of entanglement.py / entropies.py / metrics.py / utils.py /
+            linalg_operations.py against an independent definition-level oracle on pure vectors, pure density matrices,
+            full-rank / rank-deficient / maximally mixed, product and entangled states on 1-4 (5) qubits, all bases,
+            check_hermitian flags, orders and containers of the traced qubits; inputs snapshot (non-mutation); call
+            histories of the functions with tables / caches (pauli_basis, comp_basis_to_pauli, random_clifford, ...);
+          - everything that needs a spectrum or a logarithm (entropies, trace distance, mixed
             fidelity, negativity, concurrence), special-case branches against the neighbouring
             general formula, generator post-conditions per kind x seed (tolerances).
 """
-STATIC = ["C18/Props"]
+STATIC = ["C18/Props", "C18/PropsMW"]
 import itertools
 import math
 import random
@@ -282,6 +287,49 @@ def process_fidelity_exact(run, rng):
             break
         if not out[lab]:
             run.find("model:process_fidelity:kraus", "trace of the Coq Liouville model differs from sum |tr K|^2", rp, concrete=False)
+
+
+def meyer_wallach_exact(run, rng):
+    """meyer_wallach_entanglement on MIXED (and pure) unnormalised Gaussian-integer density matrices, 1-3 qubits: the value is
+    2 (1 - S/N) with the exact integer S = sum_k tr(rho_k^2); S is compared inside Coq with C18/ModelMW.mw_sum (marginal OF
+    qubit k) and with the textbook-sum version mw_sum_spec"""
+    import qibo.quantum_info as qi
+    ok, pa = vcore.static_assumptions("C18/PropsMW")
+    for name in vcore.props_theorems("C18/PropsMW.v"):
+        if name.endswith("_refuted"):
+            pass            # a refutation of the WRONG-SIDE variant, i.e. a theorem that holds on the current tree
+        run.oblige("PropsMW." + name, ok and name in pa, "static theorem (coq/theories/C18/PropsMW.v)")
+    terms, meta = [], []
+    for n in (1, 2, 3):
+        d = 2 ** n
+        for kind in ("psd_full_rank", "psd_rank_deficient", "pure", "generic_integer"):
+            if kind == "generic_integer":
+                rho = rand_op(rng, d)
+            else:
+                k = {"psd_full_rank": d, "psd_rank_deficient": max(1, d // 2), "pure": 1}[kind]
+                B = np.array([[rint(rng, -2, 2) for _ in range(k)] for _ in range(d)], dtype=complex)
+                if not np.any(B):
+                    B[0, 0] = 1
+                rho = B @ B.conj().T
+            x = rho.copy()
+            q = float(qi.meyer_wallach_entanglement(x))
+            S = round(n * (1 - q / 2))
+            rp = {"n": n, "kind": kind, "rho": ints(rho)[0], "returned": q}
+            run.case({"meyer_wallach_exact": [n, kind], "h": hash(str(rp["rho"]))}, True)
+            if not np.array_equal(x, rho):
+                run.find("input_mutated:meyer_wallach_entanglement", "meyer_wallach_entanglement modified its input", rp)
+            if q != 2 * (1 - S / n):
+                run.find("meyer_wallach_entanglement:integer_state", f"meyer_wallach_entanglement on an integer density matrix returned {q!r}, which is not 2 (1 - S/N) for an integer S", rp)
+            terms.append((f"mw{len(terms)}", f"Z.eqb (fst (mw_sum {n}%nat {lit(ints(rho)[0])})) ({S}) && zi_eqb (mw_sum {n}%nat {lit(ints(rho)[0])}) (mw_sum_spec {n}%nat {lit(ints(rho)[0])})"))
+            meta.append((rp, S))
+    out, log = run.coq_bools("C18_meyer_wallach.v", HEADER + "From QV Require Import C18.ModelMW.\n", terms, timeout=600)
+    for (lab, _), (rp, S) in zip(terms, meta):
+        if out is None:
+            run.find("coq:meyer_wallach", "generated Coq file did not compile", {}, concrete=False)
+            break
+        if not out[lab]:
+            run.find("meyer_wallach_entanglement:integer_state", f"meyer_wallach_entanglement = {rp['returned']} on a {rp['kind']} integer density matrix of {rp['n']} qubit(s): "
+                     f"sum of single-qubit purities {S} differs from the definition (marginal OF each qubit, textbook partial trace)", rp)
 
 
 def kept_order_probe(run):
@@ -866,7 +914,11 @@ def seed_machine(run, rng):
 RULE = ("bookkeeping: ALL ordered sub-lists of the qubits (n<=4 quick, n<=5 thorough) x {state-vector, density-matrix} route on seeded "
         "asymmetric Gaussian-integer states, each output compared in Coq with the model and with the textbook sum; non-trivial = the "
         "list is unsorted or a proper non-empty subset; classical measures on dyadic distributions / random bit strings; seed histories "
-        "of 3-8 generator calls mixing int seeds, shared Generators and None; 'test' items are property-style float checks")
+        "of 3-8 generator calls mixing int seeds, shared Generators and None; 'test' items are property-style float checks; "
+        "definition-level stream (c18_defs): per size 1..4 (5) a corpus of ~15 state classes (pure vectors / pure DMs: basis, product, random, GHZ, W; "
+        "mixed: maximally mixed, diagonal full-rank / rank-deficient, products of diagonal blocks, GHZ-diagonal full / deficient, Werner, nearly pure "
+        "eps = 2^-10, 2^-20, random full-rank / rank-k, products of mixed blocks) x every public measure x bases x check_hermitian x orders / containers "
+        "of the traced qubits, each compared with an independent oracle, inputs snapshot; call histories of table / cache based functions")
 
 
 def main(run):
@@ -880,6 +932,13 @@ def main(run):
                        "spectral, exercised as tests only", "Haar / Bures / BCSZ distribution claims", "diamond_norm (cvxpy absent)",
                        "limits alpha->1 and alpha->infinity of the Renyi family (proved: the alpha=0 branch is the Hartley value, and "
                        "the Tsallis alpha->1 limit)"]
+    run.not_proved += ["public functions of quantum_info WITHOUT a definition-level oracle in this check: entangling_capability, expressibility, "
+                       "frame_potential, pqc_integral (Monte-Carlo estimates over random circuits), quantum_fisher_information_matrix, "
+                       "lanczos, diamond_norm (cvxpy absent), haar_integral for power_t > 2, hellinger_* with validate=True error paths; "
+                       "sparse=True variants of pauli_basis / comp_basis_to_pauli / pauli_to_comp_basis",
+                       "negativity / relative entropies / fractional Renyi-Tsallis orders on 16x16 and larger states: only a budgeted subset per run "
+                       "(scipy fractional matrix powers dominate the run time); all sizes <= 2 qubits are exhaustive over the corpus"]
+    run.trusted += ["harness/c18_defs.py (independent einsum partial trace / transpose, eigvalsh, exact dyadic spectra)"]
     ok, pa = vcore.static_assumptions("C18/Props")
     for name in vcore.props_theorems("C18/Props.v"):
         run.oblige(name, ok and name in pa, "static theorem")
@@ -895,6 +954,7 @@ def main(run):
     fastpath_lift(run, random.Random(run.seed + 2))
     process_fidelity_exact(run, random.Random(run.seed + 3))
     kept_order_probe(run)
+    meyer_wallach_exact(run, random.Random(run.seed + 4))
     classical(run, rng)
     seed_machine(run, rng)
     T = Tests(run)
@@ -902,6 +962,8 @@ def main(run):
     spectral(run, rng, T)
     dimension_probes(run, rng, T)
     generators(run, rng, T)
+    from harness import c18_defs
+    c18_defs.run_all(run, random.Random(run.seed + 18))
     seen, uniq = set(), []
     for f in run.findings:          # one finding per key (the first failing case is the replay)
         if f.key not in seen:
@@ -929,6 +991,8 @@ def replay(run, data):
         fastpath_lift(run, random.Random(data.get("seed", 0) + 2))
     elif key.startswith(("partial_", "schmidt", "purity", "hilbert", "fidelity:pure_shortcut", "process_fidelity", "model:", "coq:")):
         bookkeeping(run, rng)
+    elif key.startswith(("meyer_wallach_entanglement:integer_state", "input_mutated:meyer_wallach", "coq:meyer_wallach")):
+        meyer_wallach_exact(run, random.Random(data.get("seed", 0) + 4))
     elif key.startswith(("hamming", "total_variation")):
         classical(run, rng)
     elif key.startswith("seed"):
@@ -939,5 +1003,11 @@ def replay(run, data):
         spectral(run, rng, T)
         dimension_probes(run, rng, T)
         generators(run, rng, T)
+        if not any(f.key == key for f in run.findings):
+            # the definition-level stream (harness/c18_defs.py) has its own generator, seeded with seed + 18
+            from harness import c18_defs
+            warnings.simplefilter("ignore")
+            np.seterr(all="ignore")
+            c18_defs.run_all(run, random.Random(data.get("seed", 0) + 18))
     run.findings = [f for f in run.findings if f.key == key][:1]
     return run.finish(rule="replay of one recorded finding (the generating section is re-executed with the recorded seed)")
